@@ -3,6 +3,7 @@ CFG = {
         J("scaled", "c02-comp --aspect C05", imports="Base Stream Inst Run RunFsComp", shard=20),
         J("scaled", "c05"),
         J("scaled", "c05-blocks"),
+        J("scaled", "c05-ids"),
         J("scaled", "witness --only C05"),
     ],
     "run_modules": ["RunFsComp"],
@@ -12,7 +13,8 @@ CFG = {
             "present in the usable part is recovered, the intact archive is recovered completely with EndOfOriginalArchiveData; "
             "non-trivial = the archive has content; distinct = distinct (archive, mode); plus 160 (quick) / 1200 (thorough) undamaged "
             "compressed (and compressed+encrypted) archives of 300-3000 bytes in 1-12 blocks, entropy {runs, text, random}, levels {0,1,5,9,11}, "
-            "repaired from memory in both modes and from sources returning 1, 2, 3 or 7 bytes per read: complete recovery and EndOfOriginalArchiveData",
+            "repaired from memory in both modes and from sources returning 1, 2, 3 or 7 bytes per read: complete recovery and EndOfOriginalArchiveData; "
+            "plus 24 (120) layer-less archives whose file ids are remapped (+1, +2^40+7, reversed): read normally and repaired completely (model-compared)",
     "rule_fscomp": 'c02-comp (scaled, BLOCK=256, FSBUF=32): 40 (quick) / 160 (thorough) compressed-only layer streams of 0..3*BLOCK+20 bytes (fixed lengths 0, 1, BLOCK-1, BLOCK, BLOCK+1, 2*BLOCK, 3*BLOCK+20, then random), entropy {runs, text, random} x levels {0, 5, 11}, written in random pieces, every second one with flush() after random pieces; for each stream EVERY truncation length of the wire x read sizes {1, 7, 32, 4096}: the real CompressionLayerFailSafeReader run to the first Ok(0)/error; oracles: the output for cut n+1 extends the output for cut n (every n, every read size); once all blocks are present everything is delivered; model comparison as for C02',
     "exhaustive": {"quick": False, "thorough": False},
     "explanation": "theorems (props/C05.v): on the uncut stream the loop reports EndOfOriginalArchiveData, nothing unfinished, every "
